@@ -4,6 +4,7 @@ verus! {
 #[verifier::external_body] pub struct KvIter { _p: () }
 pub type Kv = Result<(Slice, Slice), FjallError>;
 pub uninterp spec fn iter_kvs(it: &KvIter) -> Seq<Kv>;
+pub uninterp spec fn iter_bounds(it: &KvIter) -> (Bound<Vec<u8>>, Bound<Vec<u8>>);  // the bounds a range scan was opened with
 pub open spec fn kv_key(kv: Kv) -> Seq<u8> { slice_bytes(&kv->Ok_0.0) }
 pub open spec fn kv_val(kv: Kv) -> Seq<u8> { slice_bytes(&kv->Ok_0.1) }
 
@@ -31,12 +32,15 @@ impl PartitionHandle {
     { unimplemented!() }
     #[verifier::external_body]
     pub fn range(&self, Tracked(st): Tracked<&St>, r: (Bound<Vec<u8>>, Bound<Vec<u8>>)) -> (it: KvIter)
-        ensures is_scan(iter_kvs(&it), part_map(st.parts, part_of(self)), |k: Seq<u8>| in_range(k, r))
+        ensures is_scan(iter_kvs(&it), part_map(st.parts, part_of(self)), |k: Seq<u8>| in_range(k, r)), iter_bounds(&it) == r,
     { unimplemented!() }
 }
 
 #[verifier::external_body] #[verifier::reject_recursive_types(B)] pub struct SeqIter<B> { _p: std::marker::PhantomData<B> }
 pub uninterp spec fn seq_items<B>(it: &SeqIter<B>) -> Seq<B>;
+pub uninterp spec fn seq_src<B>(it: &SeqIter<B>) -> Seq<Kv>;   // the scan the items were derived from
+pub uninterp spec fn seq_idx<B>(it: &SeqIter<B>) -> Seq<int>;  // source position of each item
+pub uninterp spec fn seq_bounds<B>(it: &SeqIter<B>) -> (Bound<Vec<u8>>, Bound<Vec<u8>>);
 
 impl KvIter {
     #[verifier::external_body]
@@ -88,6 +92,19 @@ impl KvIter {
         requires forall|i: int| 0 <= i < iter_kvs(&self).len() ==> f.requires((#[trigger] iter_kvs(&self)[i],)),
         ensures seq_items(&r).len() == iter_kvs(&self).len(),
             forall|i: int| 0 <= i < iter_kvs(&self).len() ==> f.ensures((iter_kvs(&self)[i],), #[trigger] seq_items(&r)[i]),
+            seq_src(&r) == iter_kvs(&self), seq_idx(&r) == Seq::new(iter_kvs(&self).len(), |i: int| i), seq_bounds(&r) == iter_bounds(&self),
+    { unimplemented!() }
+    // filter_map: the outputs are the Some results, in order; seq_idx gives the source position of each
+    // output, every other source element mapped to None
+    #[verifier::external_body]
+    pub fn filter_map<B, F: FnMut(Kv) -> Option<B>>(self, f: F) -> (r: SeqIter<B>)
+        requires forall|i: int| 0 <= i < iter_kvs(&self).len() ==> f.requires((#[trigger] iter_kvs(&self)[i],)),
+        ensures seq_src(&r) == iter_kvs(&self), seq_idx(&r).len() == seq_items(&r).len(), seq_bounds(&r) == iter_bounds(&self),
+            forall|k: int| 0 <= k < seq_items(&r).len() ==> 0 <= #[trigger] seq_idx(&r)[k] < iter_kvs(&self).len()
+                && f.ensures((iter_kvs(&self)[seq_idx(&r)[k]],), Some(seq_items(&r)[k])),
+            forall|k: int, l: int| 0 <= k < l < seq_items(&r).len() ==> #[trigger] seq_idx(&r)[k] < #[trigger] seq_idx(&r)[l],
+            forall|i: int| 0 <= i < iter_kvs(&self).len() && (forall|k: int| 0 <= k < seq_items(&r).len() ==> #[trigger] seq_idx(&r)[k] != i)
+                ==> f.ensures((#[trigger] iter_kvs(&self)[i],), None),
     { unimplemented!() }
 }
 impl<B> SeqIter<B> {
